@@ -325,6 +325,9 @@ def _run_case(case):
 NUM_LEAVES = [("var", "A"), ("var", "B"), ("var", "C"), ("var", "D")]
 
 
+ARITH4 = ["/", "*", "+", "-"]
+
+
 def cases(tier, seed):
     n = 0
     # 1. bounded-exhaustive arithmetic / logic shapes
@@ -406,6 +409,22 @@ def cases(tier, seed):
         yield {"ctx": "assign", "e": ("bin", "-", ("var", "B"), lit)}
         if lit[1] <= 32767:
             yield {"ctx": "assign", "e": ("bin", "AND", lit, ("var", "A"))}
+    # 3b. two literals next to each other in a same-precedence chain with a variable: the literal's emitted type must
+    # not change the arithmetic (integer division, 16-bit wrap) whatever the neighbour is
+    hexes = [l for l in X.LITERAL_SPELLINGS if l[0] == "hex"]
+    ints = [l for l in X.LITERAL_SPELLINGS if l[0] == "num" and float(l[1]).is_integer()] + [X.num(3), X.num(300)]
+    pool2 = hexes + ([] if tier == "quick" else ints)
+    k = 0
+    for l1 in pool2:
+        for l2 in pool2 + ([X.num(3)] if tier == "quick" else []):
+            for op in ARITH4:
+                k += 1
+                op2 = ARITH4[(k // 3) % 4]
+                v = ("var", "ABCD"[k % 4])
+                inner = ("bin", op, l1, l2)
+                for e in (("bin", op2, inner, v), ("bin", op2, v, ("par", inner)), ("bin", op, l1, ("par", ("bin", op2, l2, v))),
+                          ("bin", op2, ("bin", op, v, l1), l2)):
+                    yield {"ctx": "assign" if k % 5 else "print", "e": e, "approx": True}
     # 4. built-in functions on every operand kind, nested two deep
     num_ops = [("var", "A"), X.num(2.5), ("un", "-", ("var", "B")), ("bin", "-", ("var", "A"), ("var", "B")),
                ("par", ("bin", "*", ("var", "C"), ("var", "D"))), ("arr", "X", [X.num(3)]), ("hex", 255, "FF")]
